@@ -360,6 +360,10 @@ Proof.
   replace (lenN (be32 0 ++ es_bytes dc) + 8 <? esds_size dc) with false.
   2:{ symmetry. apply N.ltb_ge. rewrite lenN_app, es_bytes_len. unfold be32, esds_size.
       rewrite !lenN_cons, !lenN_nil. lia. }
+  cbv zeta.
+  replace (firstn (N.to_nat (esds_size dc - 8)) (be32 0 ++ es_bytes dc)) with (be32 0 ++ es_bytes dc).
+  2:{ symmetry. apply firstn_all2. pose proof (es_bytes_len dc) as L. unfold lenN in L.
+      rewrite app_length. unfold be32. cbn [length]. lia. }
   rewrite r_u32_be32 by lia. estep.
   rewrite <- (app_nil_r (es_bytes dc)). rewrite decode_es_ok by exact Hn. estep.
   replace (36 + (8 + 4 + (2 + es_size dc)) <? mp4a_size dc) with false
